@@ -38,7 +38,7 @@ pub fn strategy() -> BoxedStrategy<Case> {
     let holder = (
         issue_spec_strategy(ClaimCfg::SHORT_F64, HONEST_PATHS, holder_strategy()),
         vec(
-            (choices_strategy(), prop::option::weighted(0.5, (aud_nonce_strategy(), aud_nonce_strategy())), 0u8..10, any::<u8>()),
+            (choices_strategy(), prop::option::weighted(0.5, (aud_nonce_strategy(), aud_nonce_strategy())), 0u8..11, any::<u8>()),
             1..=8,
         ),
     )
@@ -53,6 +53,11 @@ pub fn strategy() -> BoxedStrategy<Case> {
                             selection.insert("no_such_claim_zz".into(), Value::Bool(true));
                             HolderOp::UnknownClaim { selection }
                         }
+                        2 => {
+                            // an algorithm that cannot work with either holder key type
+                            let alg = ["ES384", "XX", "RS256", "none", "HS256", ""][(bits % 6) as usize].to_string();
+                            HolderOp::BadKbAlg { selection, alg }
+                        }
                         1 => {
                             // 1..=6: at least one and at most two of the three present
                             let b = 1 + (bits % 6);
@@ -64,7 +69,7 @@ pub fn strategy() -> BoxedStrategy<Case> {
                             }
                         }
                         _ => {
-                            let kb = if issue.holder.is_some() { kb.map(|(aud, nonce)| KbArgs { aud, nonce, key: issue.holder }) } else { None };
+                            let kb = if issue.holder.is_some() { kb.map(|(aud, nonce)| KbArgs { default_alg: nonce.chars().count() % 2 == 1, aud, nonce, key: issue.holder }) } else { None };
                             HolderOp::Good { selection, kb }
                         }
                     }
